@@ -225,7 +225,11 @@ class HistoryGen:
                 return (op, (k, self._val()))
         else:
             op = rng.choice(['contains', 'has_key', 'len', 'bool', 'iter',
-                             'minKey', 'maxKey', 'isdisjoint'])
+                             'minKey', 'maxKey', 'isdisjoint'] + (
+                                 ['sindex'] if self.kind == 'Set' else []))
+            if op == 'sindex':
+                n = len(present)
+                return (op, (rng.randint(-n - 2, n + 1),))
             if op == 'isdisjoint':
                 ks = [rng.choice(self.universe)
                       for _ in range(rng.randint(0, 3))]
